@@ -493,7 +493,34 @@ def rule_K4(chk, prog, cached):
     sets["set_cache_maxsize"] = seen
     # clear_cache: M.f.cache_clear()
     seen = []
-    for st in A.strip_docstring(fs["clear_cache"].node.body):
+    def local_table(fn, node):
+        """literal tuple/list behind `node` (a Name bound once locally or at module level, or the literal itself) -> element nodes"""
+        if isinstance(node, ast.Name):
+            ds = [v for st_, v, k in A.local_bindings(fn).get(node.id, []) if k == "assign" and v is not None]
+            if not ds:
+                ds = [n.value for n in ctl.tree.body if isinstance(n, ast.Assign) and A.text(n.targets[0]) == node.id]
+            if len(ds) != 1:
+                return None
+            node = ds[0]
+        return list(node.elts) if isinstance(node, (ast.Tuple, ast.List)) else None
+    cbody = A.strip_docstring(fs["clear_cache"].node.body)
+    # form: <table> = (M.f, M.g, ...); for v in <table>: v.cache_clear()
+    loops = [st for st in cbody if isinstance(st, ast.For) and isinstance(st.target, ast.Name) and len(st.body) == 1 and isinstance(st.body[0], ast.Expr)
+             and isinstance(st.body[0].value, ast.Call) and A.text(st.body[0].value.func) == f"{st.target.id}.cache_clear"]
+    if loops and all(st in loops or (isinstance(st, ast.Assign) and isinstance(st.value, (ast.Tuple, ast.List))) for st in cbody):
+        for lp in loops:
+            els = local_table(fs["clear_cache"].node, lp.iter)
+            if els is None:
+                raise AnalysisError("clear_cache: table of memoised functions is not a literal")
+            for e in els:
+                t = target_of(e)
+                if t is None:
+                    chk.bad("K4", (fs["clear_cache"], lp), A.text(e), f"`{A.text(e)}` (entry of the table) is not a memoised function")
+                    continue
+                seen.append(t)
+                chk.ok("K4", (fs["clear_cache"], lp), A.text(e), sample=False)
+        cbody = []
+    for st in cbody:
         tl = table_loop(st, "clear")
         if tl is not None:
             for at in tl:
@@ -527,6 +554,20 @@ def rule_K4(chk, prog, cached):
                     chk.ok("K4", (fs["get_cache_info"], v), v, sample=False)
                     continue
             chk.bad("K4", (fs["get_cache_info"], v), v, "entry is not `M.f.cache_info()` of a memoised function")
+    elif len(rets) == 1 and isinstance(rets[0].value, ast.DictComp) and isinstance(rets[0].value.generators[0].target, ast.Tuple) \
+            and len(rets[0].value.generators[0].target.elts) == 2:
+        dc = rets[0].value
+        kn, fn_ = (A.text(e) for e in dc.generators[0].target.elts)
+        els = local_table(fs["get_cache_info"].node, dc.generators[0].iter)
+        if els is None or A.text(dc.key) != kn or A.text(dc.value) != f"{fn_}.cache_info()":
+            raise AnalysisError("get_cache_info: table-driven form not recognised")
+        for e in els:
+            t = target_of(e.elts[1]) if isinstance(e, (ast.Tuple, ast.List)) and len(e.elts) == 2 else None
+            if t is not None:
+                seen.append(t)
+                chk.ok("K4", (fs["get_cache_info"], e), A.text(e), sample=False)
+            else:
+                chk.bad("K4", (fs["get_cache_info"], e), A.text(e), "entry is not (name, <memoised function>)")
     else:
         raise AnalysisError("get_cache_info no longer returns a dict display")
     sets["get_cache_info"] = seen
